@@ -55,6 +55,10 @@ def gen_program(rng, tier):
     return prog, inputs, mode
 
 
+BYSTANDER_OPS = ('map', 'starmap', 'filter', 'accumulate', 'partition', 'partition_unique', 'sliding_window', 'unique',
+                 'pluck', 'union', 'zip', 'combine_latest', 'slice')
+
+
 class Injector:
     def __init__(self, faults, exc='exception', async_sinks=False):
         self.faults = faults            # {fn name: set(call idx)}
@@ -160,6 +164,28 @@ def check_run(case, res, counters):
             add('C16:state-after-failure@%s' % spec['op'],
                 'node %s (%s): %d own failure(s); outputs %s, reference on the non-failing inputs %s'
                 % (nid, spec['op'], nfail, real[:30], exp[:30]))
+    # (2b) the other nodes of the run -- in particular the ancestors of the failing node, through whose update() the
+    # exception travelled -- are not corrupted either: each of them delivers what the reference node delivers for the
+    # inputs it was offered (an element whose push failed further down counts as handled by them).  Only nodes that emit
+    # at most once per input: a node in the middle of several emissions is legitimately cut short by the exception.
+    if any(e[2] == 'FAULT' for e in log.ev):
+        for nid, spec in specs.items():
+            if nid in own_fail or spec['op'] not in BYSTANDER_OPS or not ins.get(nid):
+                continue
+            ups = list(spec.get('ups', []))
+            mn, mups = M.standalone(spec, len(ups))
+            try:
+                for who, x, md, failed in ins[nid]:
+                    mn.update(x, mups[ups.index(who)], md)
+            except Exception:
+                continue
+            real = [syncrun._val(x) for x, _ in outs.get(nid, [])]
+            exp = [syncrun._val(x) for x, _ in mn.out]
+            counters['bystander_node_state_checks'] = counters.get('bystander_node_state_checks', 0) + 1
+            if real != exp:
+                add('C16:bystander-state-after-failure@%s' % spec['op'],
+                    'node %s (%s), none of whose own functions failed: inputs %s, outputs %s, reference %s'
+                    % (nid, spec['op'], [syncrun._val(r[1]) for r in ins[nid]][:20], real[:30], exp[:30]))
     # (3) failed elements are never signalled
     failed_dicts = {}           # id(dict) -> all failures concerned metadata-less data (inherited attribution)
     for e in log.ev:
@@ -188,7 +214,65 @@ def enumerate_faults(prog, inputs, mode, async_sinks=False):
     return list(res.inj.calls)
 
 
+def gen_timed_case(rng):
+    """source -> [map] -> partition(n, timeout[, key]) -> consumer that fails on some calls, in virtual time"""
+    from .. import aprogs
+    nodes = [{'id': 'n0', 'op': 'source', 'ups': []}]
+    last = 'n0'
+    if rng.random() < 0.3:
+        nodes.append({'id': 'm0', 'op': 'map', 'ups': [last], 'f': 'inc'})
+        last = 'm0'
+    T = rng.choice([0.5, 1.0, 2.0])
+    nodes.append({'id': 'tw', 'op': 'partition', 'ups': [last], 'n': rng.choice([2, 2, 3, 4]), 'timeout': T,
+                  'key': rng.choice([None, None, 'mod2'])})
+    n_calls = 8
+    nodes.append({'id': 'sk', 'op': 'sink', 'ups': ['tw'], 'kind': rng.choice(['sync', 'sync', 'coro', 'tornado']),
+                  'svc': [rng.choice([0, 0, 0.25])], 'fail': sorted(rng.sample(range(n_calls), rng.choice([1, 1, 2])))})
+    grid = [0, 0, 0.25, 0.5, 0.5, 1.0, 1.0, 2.0, 3.0]
+    prods = [[[rng.choice(grid), 'n0', rng.randrange(6), 1] for _ in range(rng.randrange(3, 12))]]
+    return {'timed': True, 'prog': {'nodes': nodes, 'extra_edges': []}, 'producers': prods, 'awaiting': True}
+
+
+def check_timed(case, counters, sets):
+    """A failing consumer behind a time-based holder: the holder goes on exactly as if the consumer had not failed (its
+    observed outputs are judged against its observed inputs: every arrival in exactly one batch, full batches at once,
+    partial ones exactly one timeout after their first member -- a timer of a partition that has already left must
+    not fire), and every exception an emit raises is the injected one."""
+    from .. import asyncrun
+    ar = asyncrun.run_async(case)
+    if ar.stop in ('iter-cap', 'vt-cap', 'watchdog'):
+        case['_stop'] = '%s at vt=%s after %d events %s' % (ar.stop, getattr(ar, 'end_vt', None), len(ar.log.ev), getattr(ar, 'stop_detail', ''))
+        return None, [], 0
+    viols, seen = [], set()
+
+    def add(key, what):
+        if key not in seen:
+            seen.add(key)
+            viols.append({'key': key, 'what': what, 'case': case})
+    n_failed = sum(1 for e in ar.log.ev if e[2] == 'FAILED')
+    for i, exc in ar.emit_exc.items():
+        if not isinstance(exc, F.InjectedFault) and not isinstance(getattr(exc, '__cause__', None), F.InjectedFault):
+            add('C16:spurious-exception:%s' % type(exc).__name__, 'emit #%d raised %r; injected failures only at consumer calls %s'
+                % (i, exc, case['prog']['nodes'][-1]['fail']))
+    for name, msg, exc in ar.errors:
+        if exc is not None and not isinstance(exc, F.InjectedFault):
+            add('C16:loop-exception:%s' % type(exc).__name__, '%s %s %r' % (name, msg[:200], exc))
+    spec = [s for s in case['prog']['nodes'] if s['id'] == 'tw'][0]
+    ins, outs = asyncrun.by_node(ar.log)
+
+    def bad(clause, nid, detail):
+        add('C16:holder-after-consumer-failure:%s@partition+timeout' % clause, str(detail))
+    if n_failed:
+        counters['timed_holder_checks_after_consumer_failure'] = counters.get('timed_holder_checks_after_consumer_failure', 0) + 1
+        asyncrun._check_timeout_partition(spec, ins.get('tw', []), outs.get('tw', []), bad, False, ar)
+    counters['faults_injected'] = counters.get('faults_injected', 0) + n_failed
+    sets.setdefault('modes', set()).add('virtual-time+timeout-partition')
+    return ar, viols, n_failed
+
+
 def check_case(case, counters, sets):
+    if case.get('timed'):
+        return check_timed(case, counters, sets)
     res = run_with_faults(case['prog'], case['inputs'], case['mode'], {k: set(v) for k, v in case['faults'].items()},
                           case.get('exc', 'exception'), case.get('async_sinks', False))
     if res.hung:
@@ -207,6 +291,16 @@ def run_shard(seed, tier, shard, nshards):
     out = {'evaluations': 0, 'keys': [], 'violations': [], 'samples': [], 'counters': {},
            'sets': {}, 'inconclusive': []}
     C = out['counters']
+    for k in range(n_programs(tier) * 4):
+        case = gen_timed_case(rng)
+        res, viols, injected = check_case(case, C, out['sets'])
+        out['evaluations'] += 1
+        if res is None:
+            out['inconclusive'].append('timed case %d: budget (%s)' % (k, case.get('_stop')))
+            continue
+        if injected:
+            out['keys'].append(progs.prog_key(case, None))
+        out['violations'].extend(viols)
     for k in range(n_programs(tier)):
         prog, inputs, mode = gen_program(rng, tier)
         async_sinks = mode == 'async' and rng.random() < 0.5
